@@ -282,9 +282,8 @@ func (d *drv) craft(r *lib.Rng, q *parsed, it item, k int, prevKey []byte) []byt
 	h.tc = uint8(r.U64())
 	h.flow = uint32(r.U64()) & 0xfffff
 	h.udpSrc, h.udpDst = q.udp.DstPort, q.udp.SrcPort
-	if r.Intn(8) == 0 {
-		h.udpSrc = uint16(r.U64()) // nor at the ports
-	}
+	// responses come from the queried port: since the repair of the clients' source check a response
+	// from another SCION/UDP source port is skipped (C05's clause; not modelled here)
 	switch it.addr {
 	case 1:
 		h.srcIA ^= 1 << uint(r.Intn(64))
@@ -468,6 +467,11 @@ func (d *drv) runExchange(r *lib.Rng, c *client.SCIONClient, flt *recFilter, lg 
 			}
 			if it.flip != 0 {
 				m := mutate(rr, raw, tagset{})
+				// a flipped bit in the SCION/UDP source port makes it a response from another port, which
+				// the clients skip since the repair of their source check (C05's clause; not modelled here)
+				if pm := parseAs(m, false); pm.ok && pm.isUDP && pm.udp.SrcPort != q.udp.DstPort {
+					m = raw
+				}
 				if !probeCandidate(m) || probe {
 					raw = m
 				}
